@@ -1,7 +1,7 @@
-(* C04 — property theorems only.  Proofs live in Proofs/JoinProofs.v, Proofs/RosPaths.v, Proofs/RosProofs.v. *)
+(* C04 — property theorems only.  Proofs live in Proofs/JoinProofs.v, CiscoProofs.v, RosPaths.v, RosProofs.v. *)
 From Coq Require Import List String Bool Arith.
 From Annet Require Import Base.Str Base.Tree Model.Offside Gen.Src_vendors Model.Join Spec.P_C04 Proofs.JoinProofs
-                          Proofs.RosProofs.
+                          Proofs.CiscoProofs Proofs.RosProofs.
 Import ListNotations.
 Open Scope string_scope.
 
@@ -48,6 +48,16 @@ Proof.
   injection E as -> -> _. exists text. auto.
 Qed.
 Print Assumptions C04_brace.
+
+(* Cisco (Tier B): trees in which the block of every address-family row ends with the leaf row exit-address-family
+   (what parsing a device config gives) round-trip, although split shifts those blocks one column to the right *)
+Theorem C04_cisco_closed :
+  forall (bexit : string) (tbl : list (list string * string)) (ind : string) (f : forest),
+    wf_indent ind = true -> wfb f = true -> all_rows (wf_row_plain (SkCisco bexit tbl)) f = true ->
+    cisco_closed bexit tbl f = true ->
+    parse_f (FPlain (SkCisco bexit tbl)) ind (join_plain ind f) = Some (Ok f).
+Proof. intros bexit tbl ind f Hi Hw. apply parse_cisco_closed; [exact Hi|apply wfb_wf; exact Hw]. Qed.
+Print Assumptions C04_cisco_closed.
 
 (* RouterOS (Tier B) for the formatter that takes the section path from context.row: any nesting of section words,
    then leaf rows; any indent of >= 1 blanks; whether or not _formatted_blocks flushes its last line *)
@@ -101,6 +111,17 @@ Example C04_example_domain :
   forallb (fun n => wf_C04 (n, " 	", ex_tree) && guard_C04 (n, " 	", ex_tree))
           ["huawei"; "h3c"; "optixtrans"; "cisco"; "nexus"; "iosxr"; "arista"; "aruba"; "b4com"; "juniper"; "ribbon";
            "nokia"; "pc"] = true.
+Proof. vm_compute. reflexivity. Qed.
+
+Definition ex_cisco : forest :=
+  [("router bgp 1", T [("neighbor 10.0.0.2", T []);
+                       ("address-family ipv4", T [("neighbor 10.0.0.2 activate", T []); ("exit-address-family", T [])]);
+                       ("address-family ipv6", T [("exit-address-family", T [])]);
+                       ("neighbor 10.9.9.9 shutdown", T [])]);
+   ("interface Eth1", T [("mtu 9000", T [])])].
+
+Example C04_example_cisco_closed :
+  wf_C04 ("cisco", "  ", ex_cisco) && guard_C04 ("cisco", "  ", ex_cisco) = true.
 Proof. vm_compute. reflexivity. Qed.
 
 Definition ex_ros : forest :=
